@@ -19,7 +19,7 @@ RULE = (
     "(op, canonicalised expressions, shapes, backend)."
 )
 ASSUMPTIONS = [
-    "only numpy-family backends are importable in this sandbox",
+    "only numpy is importable in this sandbox: back ends are numpy, numpy.numpylike, numpy.einsum and numpy.loopvmap = einx's own jax.vmap back end assembled over numpy and a Python-loop vmap (einxverif/loopvmap.py)",
     "reference semantics are the loop interpreter einxverif/loopsem.py written from the documentation",
     "argmax/argmin/sort/argsort only on all-distinct data; no zero divisors; no NaN/inf; dtype not compared",
     "set_at with competing updates: any of the competing values is accepted",
